@@ -248,8 +248,9 @@ namespace {
         default:   // anything
             o.opcode = raw[ 0 ];
             o.body   = take( static_cast< std::size_t >( k1 % 27 ) );
+            // well formed connection updates / channel maps with arbitrary parameters belong to C21 / C22
             if ( ( o.opcode == 0x00 && o.body.size() == 11 ) || ( o.opcode == 0x01 && o.body.size() == 7 ) || ( o.opcode == 0x18 && o.body.size() == 4 ) )
-                o.rel = 2 + k2 % 8;
+                o.opcode = 0x19;
             break;
         }
         return o;
@@ -466,6 +467,7 @@ namespace {
         std::uint64_t t_certain   = 0;
         bool          unconstrained = false;
         unsigned      late        = 0;
+        unsigned      called_at   = 0;
     };
 
     constexpr std::uint64_t T_PRT = 40000000ull;
@@ -475,12 +477,16 @@ namespace {
         const config& cf    = configs()[ c.cfg ];
         const bool    avoid = verif::opt_has( "avoid", "F-21c" );
         const bool    trace = verif::opt( "trace" ) == "1";
+        auto          flag  = []( const char* id ) { return verif::opt_has( "exclude", id ) || verif::opt_has( "avoid", id ); };
+        const bool    answer_phy = flag( "F-27a" );
+        const bool    no_foreign_answers = flag( "F-27c" );
         cbs()               = cb_state();
         acb                 = acb_t();
         v_open              = 42;
         v_prot              = 17;
         auto    dev         = cf.make();
         central cen( *dev );
+        cen.lenient_when_rx_full = verif::opt_has( "avoid", "F-27b" ) || verif::opt_has( "exclude", "F-27b" );
         dev->run();
         const unsigned sup = static_cast< unsigned >( dev->features() );
 
@@ -492,25 +498,31 @@ namespace {
         bool                       ver_seen = false, unknown_seen = false, old_version_seen = false, enc_req_seen = false;
         unsigned                   offered_acc = 0xff;
         std::set< std::string >    close_causes;
-        bool                       instant_pending = false;
+        bool                       instant_pending = false, update_pending = false;
         std::uint16_t              instant         = 0;
         bool                       big_burst_of_callbacks = false;
         // evidence: delivered PDUs that produce an application callback, in order, per callback kind
         std::deque< bool >         q_rejected, q_unknown;     // value: ends the own procedure that is running
         std::deque< int >          q_phy_now;                 // PHY update indications without change
         std::size_t                cb_seen = 0, tx_seen = 0;
-        std::map< std::uint64_t, std::uint64_t > anchor_before;   // time of a connection event -> time of the one before
         unsigned                   total_events = 0;
         int                        noack_left   = 0;
         unsigned                   async_fired_seen = 0;
         int                        async_answer = 1;
+        bool                       own_hint = false;
 
         // coverage
         bool nt_wrong_len = false, nt_state = false;
         std::set< std::string > labels;
 
+        bool carry_enc = false;
         auto new_connection = [&]() {
             expect.clear();
+            if ( carry_enc )
+            {
+                // F-28b: the follow up of an LL_ENC_REQ of the last connection is sent on this one
+                expect.push_back( Expect{ Expect::ENC_FOLLOW, 0x03, true, true, false } );
+            }
             own = Own();
             unsure_lo.clear();
             app_ver_to_send = 0;
@@ -545,6 +557,7 @@ namespace {
 
         // ---- what the reference expects for one PDU the peripheral took
         auto on_delivered = [&]( const Op& o, std::uint16_t counter ) {
+            const bool own_started = own.started || own_hint;
             const int  len       = 1 + static_cast< int >( o.body.size() );
             const int  op        = o.opcode;
             const int  sl        = spec_len( op );
@@ -582,7 +595,7 @@ namespace {
                 if ( right_len )
                 {
                     unknown_seen = true;
-                    const bool ends = own.kind >= 0 && own.started
+                    const bool ends = own.kind >= 0 && own_started
                         && ( ( own.kind == APP_CPR && o.body[ 0 ] == 0x0F ) || ( own.kind == APP_PHY && o.body[ 0 ] == 0x16 ) || ( own.kind == APP_VER && o.body[ 0 ] == 0x0C ) );
                     q_unknown.push_back( ends && own.kind != APP_VER );
                     if ( ends )
@@ -637,18 +650,19 @@ namespace {
                         defer = false;
                         q_phy_now.push_back( 1 );
                     }
-                    if ( valid && own.kind == APP_PHY && own.started )
+                    if ( valid && own.kind == APP_PHY && own_started )
                         own.maybe = true;
                 }
                 if ( op == 0x00 )
                 {
                     close_causes.insert( "update-parameters" );
-                    if ( own.kind == APP_CPR && own.started )
+                    if ( own.kind == APP_CPR && own_started )
                         own.maybe = true;
                 }
                 if ( defer && o.rel != no_rel && o.rel >= 1 && o.rel < 30000 )
                 {
                     instant_pending = true;
+                    update_pending  = op == 0x00;
                     instant         = static_cast< std::uint16_t >( counter + o.rel );
                 }
             }
@@ -660,8 +674,13 @@ namespace {
             case 0x03:
                 labels.insert( "pdu:enc-req" );
                 enc_req_seen = true;
+                // LL_START_ENC_REQ / the reject follows LL_ENC_RSP, but may be overtaken by the responses to later PDUs
+                for ( std::size_t k = expect.size(); k-- > 0; )
+                    if ( expect[ k ].what == Expect::ENC_FOLLOW )
+                        expect.erase( expect.begin() + static_cast< long >( k ) );
                 push( Expect::ENC_RSP );
                 push( Expect::ENC_FOLLOW, true );
+                expect.back().floating = true;
                 break;
             case 0x06:
                 labels.insert( "pdu:start-enc-rsp" );
@@ -694,8 +713,10 @@ namespace {
                     if ( o.body[ 0 ] <= 6 )
                         old_version_seen = true;
                     push( Expect::VERSION_IND );
-                    if ( own.kind == APP_VER && own.started )
+                    if ( own.kind == APP_VER && own_started )
                         own.maybe = true;
+                    else if ( own.kind == APP_VER )
+                        own.unconstrained = true;   // the exchange is over before the request of the application is sent
                 }
                 else
                 {
@@ -709,7 +730,7 @@ namespace {
             case 0x0D:
             case 0x11: {
                 labels.insert( "pdu:reject" );
-                const bool ends = own.kind >= 0 && own.started
+                const bool ends = own.kind >= 0 && own_started
                     && ( op == 0x0D || ( own.kind == APP_CPR && o.body[ 0 ] == 0x0F ) || ( own.kind == APP_PHY && o.body[ 0 ] == 0x16 ) || ( own.kind == APP_VER && o.body[ 0 ] == 0x0C ) );
                 // certain only for the answers the specification defines
                 q_rejected.push_back( ends && ( own.kind != APP_VER ) && !( op == 0x0D && own.kind == APP_PHY ) );
@@ -739,8 +760,64 @@ namespace {
         };
 
         // ---- after every radio callback: look at what the peripheral transmitted and told the application
-        auto after_callback = [&]( std::size_t op_index ) {
+        std::function< void( std::size_t ) > after_callback;
+        after_callback = [&]( std::size_t op_index ) {
             const std::uint64_t now = cen.now_us;
+            // PDUs of the peripheral
+            for ( ; tx_seen < cen.tx.size(); ++tx_seen )
+            {
+                const tx_rec& r = cen.tx[ tx_seen ];
+                if ( r.llid != 3 || r.payload.empty() || r.conn != cen.conn_no )
+                    continue;
+                const bytes& o  = r.payload;
+                const int    op = o[ 0 ];
+                if ( trace )
+                    std::cerr << "  t=" << r.t_us / 1000 << "ms step " << r.step << " tx " << pdu_text( o ) << "\n";
+                auto start_own  = [&]() {
+                    own.started = true;
+                    own.t_tx    = r.t_first_us;
+                    labels.insert( own.kind == APP_VER ? "own:version-request-sent" : own.kind == APP_CPR ? "own:connection-param-req-sent" : "own:phy-req-sent" );
+                };
+                if ( op == 0x0F && o.size() == 24 && own.kind == APP_CPR && !own.started )
+                {
+                    start_own();
+                    continue;
+                }
+                if ( op == 0x16 && o.size() == 3 && own.kind == APP_PHY && !own.started )
+                {
+                    start_own();
+                    continue;
+                }
+                // match against the expected responses: in order; optional ones may be absent, floating ones may be overtaken
+                bool matched = false;
+                for ( std::size_t idx = 0; idx < expect.size() && !matched; ++idx )
+                {
+                    if ( expect[ idx ].matches( o ) )
+                    {
+                        expect.erase( expect.begin() + static_cast< long >( idx ) );
+                        for ( std::size_t j = idx; j-- > 0; )
+                            if ( !expect[ j ].floating )
+                                expect.erase( expect.begin() + static_cast< long >( j ) );
+                        matched = true;
+                    }
+                    else if ( !expect[ idx ].floating && !expect[ idx ].optional )
+                        break;
+                }
+                if ( matched )
+                    continue;
+                if ( op == 0x0C && o.size() == 6 && app_ver_to_send > 0 )
+                {
+                    // LL_VERSION_IND on behalf of remote_versions_request() (counted separately, DESIGN.md section 9)
+                    --app_ver_to_send;
+                    if ( own.kind == APP_VER && !own.started )
+                        start_own();
+                    continue;
+                }
+                const std::string exp = expect.empty() ? std::string( "no PDU" ) : expect.front().describe();
+                verif::fail( "control.response", verif::cat( "op ", op_index, ": the peripheral transmitted ", pdu_text( o ), " but the received control PDUs require ", exp ),
+                    verif::cat( "oracle=response got=0x", verif::hex( o.data(), 1 ) ) );
+            }
+
             // application callbacks
             unsigned in_this = 0;
             bool     closed  = false;
@@ -808,63 +885,6 @@ namespace {
                 labels.insert( async_answer ? "async:positive-reply" : "async:negative-reply" );
             }
 
-            // PDUs of the peripheral
-            for ( ; tx_seen < cen.tx.size(); ++tx_seen )
-            {
-                const tx_rec& r = cen.tx[ tx_seen ];
-                if ( r.llid != 3 || r.payload.empty() || r.conn != cen.conn_no )
-                    continue;
-                const bytes& o  = r.payload;
-                const int    op = o[ 0 ];
-                if ( trace )
-                    std::cerr << "  t=" << r.t_us / 1000 << "ms step " << r.step << " tx " << pdu_text( o ) << "\n";
-                auto start_own  = [&]() {
-                    own.started = true;
-                    own.t_tx    = r.t_first_us;
-                    auto it     = anchor_before.find( r.t_first_us );
-                    own.t_q     = it == anchor_before.end() ? r.t_first_us : it->second;
-                    labels.insert( own.kind == APP_VER ? "own:version-request-sent" : own.kind == APP_CPR ? "own:connection-param-req-sent" : "own:phy-req-sent" );
-                };
-                if ( op == 0x0F && o.size() == 24 && own.kind == APP_CPR && !own.started )
-                {
-                    start_own();
-                    continue;
-                }
-                if ( op == 0x16 && o.size() == 3 && own.kind == APP_PHY && !own.started )
-                {
-                    start_own();
-                    continue;
-                }
-                // match against the expected responses: in order; optional ones may be absent, floating ones may be overtaken
-                bool matched = false;
-                for ( std::size_t idx = 0; idx < expect.size() && !matched; ++idx )
-                {
-                    if ( expect[ idx ].matches( o ) )
-                    {
-                        expect.erase( expect.begin() + static_cast< long >( idx ) );
-                        for ( std::size_t j = idx; j-- > 0; )
-                            if ( !expect[ j ].floating )
-                                expect.erase( expect.begin() + static_cast< long >( j ) );
-                        matched = true;
-                    }
-                    else if ( !expect[ idx ].floating && !expect[ idx ].optional )
-                        break;
-                }
-                if ( matched )
-                    continue;
-                if ( op == 0x0C && o.size() == 6 && app_ver_to_send > 0 )
-                {
-                    // LL_VERSION_IND on behalf of remote_versions_request() (counted separately, DESIGN.md section 9)
-                    --app_ver_to_send;
-                    if ( own.kind == APP_VER && !own.started )
-                        start_own();
-                    continue;
-                }
-                const std::string exp = expect.empty() ? std::string( "no PDU" ) : expect.front().describe();
-                verif::fail( "control.response", verif::cat( "op ", op_index, ": the peripheral transmitted ", pdu_text( o ), " but the received control PDUs require ", exp ),
-                    verif::cat( "oracle=response got=0x", verif::hex( o.data(), 1 ) ) );
-            }
-
             // end of the link?
             if ( !cen.connected() )
             {
@@ -903,9 +923,21 @@ namespace {
                 }
                 else
                     labels.insert( "closed:without-callback" );
+                carry_enc = false;
+                if ( flag( "F-28b" ) )
+                    for ( auto& e : expect )
+                        carry_enc = carry_enc || e.what == Expect::ENC_FOLLOW;
+                if ( carry_enc )
+                {
+                    rep.excluded = true;
+                    labels.insert( "excluded:F-28b-enc-req-in-the-last-event-of-a-connection" );
+                }
                 new_connection();
                 return;
             }
+
+            if ( own.kind >= 0 && !own.started && total_events > own.called_at + 12 )
+                resolve_own( false );
 
             // the response timeout of an own procedure
             if ( own.kind >= 0 && own.started )
@@ -935,9 +967,23 @@ namespace {
         };
 
         // ---- one connection event
-        auto do_event = [&]( std::vector< const Op* > burst_ops, std::size_t op_index ) {
+        Op phy_answer;
+        phy_answer.kind   = OP_PDU;
+        phy_answer.opcode = 0x18;
+        phy_answer.body   = { 0, 0, 0, 0 };
+        phy_answer.rel    = 4;
+        std::function< void( std::vector< const Op* >, std::size_t ) > do_event;
+        do_event = [&]( std::vector< const Op* > burst_ops, std::size_t op_index ) {
             if ( !ensure_connected() )
                 return;
+            if ( answer_phy && own.kind == APP_PHY && own.started && !own.maybe
+                && cen.next_event_time() + 3ull * dev->rs().evt.interval_us * ( c.p.latency + 1 ) >= own.t_q + T_PRT )
+            {
+                // F-27a: the PHY update procedure has no response timeout; the central answers before it would expire
+                rep.excluded = true;
+                labels.insert( "excluded:F-27a-phy-request-answered-by-construction" );
+                burst_ops.insert( burst_ops.begin(), &phy_answer );
+            }
             const std::uint16_t counter = dev->event_counter();
             std::vector< pdu >  burst;
             for ( auto* o : burst_ops )
@@ -957,18 +1003,37 @@ namespace {
                 }
                 burst.push_back( p );
             }
-            const std::uint64_t before = cen.anchor_us;
-            const bool          ack    = noack_left <= 0;
-            const auto          res    = cen.event( burst, ack );
-            anchor_before[ cen.now_us ] = before;
-            if ( anchor_before.size() > 64 )
-                anchor_before.erase( anchor_before.begin() );
+            const bool ack = noack_left <= 0;
+            const auto res = cen.event( burst, ack );
             ++total_events;
             if ( trace )
                 std::cerr << "event t=" << cen.now_us / 1000 << "ms counter " << counter << " burst " << burst_ops.size() << " delivered " << res.delivered
                           << ( ack ? "" : " (no ack)" ) << ( res.link_closed ? " LINK CLOSED" : "" ) << "\n";
+            // the request of an own procedure that went out in this very event counts as transmitted for the PDUs of this event
+            own_hint = false;
+            if ( own.kind >= 0 && !own.started )
+            {
+                unsigned version_rsp_due = 0, version_on_air = 0;
+                for ( auto& e : expect )
+                    version_rsp_due += e.what == Expect::VERSION_IND;
+                for ( std::size_t k = tx_seen; k < cen.tx.size(); ++k )
+                {
+                    const tx_rec& r = cen.tx[ k ];
+                    if ( r.llid != 3 || r.payload.empty() || r.conn != cen.conn_no )
+                        continue;
+                    if ( own.kind == APP_CPR && r.payload[ 0 ] == 0x0F && r.payload.size() == 24 )
+                        own_hint = true;
+                    if ( own.kind == APP_PHY && r.payload[ 0 ] == 0x16 && r.payload.size() == 3 )
+                        own_hint = true;
+                    if ( r.payload[ 0 ] == 0x0C && r.payload.size() == 6 )
+                        ++version_on_air;
+                }
+                if ( own.kind == APP_VER && version_on_air > version_rsp_due )
+                    own_hint = true;
+            }
             for ( unsigned i = 0; i != res.delivered && i < burst_ops.size(); ++i )
                 on_delivered( *burst_ops[ i ], counter );
+            own_hint = false;
             if ( burst_ops.size() >= 3 )
                 labels.insert( "burst:3-or-more-pdus-in-one-event" );
             if ( res.delivered < burst_ops.size() )
@@ -989,11 +1054,44 @@ namespace {
             switch ( o.kind )
             {
             case OP_PDU: {
+                // F-27c: the single response timer is stopped by PDUs that end *another* procedure than the one that is
+                // outstanding; under the exclusion the central does not send those while an own procedure is outstanding
+                auto foreign_answer = [&]( const Op& x ) {
+                    if ( !no_foreign_answers || own.kind < 0 )
+                        return false;
+                    const std::size_t len = 1 + x.body.size();
+                    if ( x.opcode == 0x00 && len == 12 )
+                        return own.kind != APP_CPR;
+                    if ( x.opcode == 0x0C && len == 6 )
+                        return own.kind != APP_VER && !ver_seen;
+                    if ( ( x.opcode == 0x07 && len == 2 ) || ( x.opcode == 0x11 && len == 3 ) )
+                        return x.body[ 0 ] == 0x0F && own.kind != APP_CPR;
+                    return false;
+                };
+                if ( foreign_answer( o ) )
+                {
+                    rep.excluded = true;
+                    labels.insert( "excluded:F-27c-answer-to-another-procedure" );
+                    break;
+                }
                 std::vector< const Op* > burst{ &o };
                 auto instant_carrier = []( const Op& x ) { return x.opcode == 0x00 || x.opcode == 0x01 || x.opcode == 0x18; };
-                while ( burst.size() < 6 && c.ops[ i ].md && i + 1 < c.ops.size() && c.ops[ i + 1 ].kind == OP_PDU
+                while ( burst.size() < 6 && c.ops[ i ].md && i + 1 < c.ops.size() && c.ops[ i + 1 ].kind == OP_PDU && !foreign_answer( c.ops[ i + 1 ] )
                         && !( avoid && ( instant_carrier( c.ops[ i ] ) || instant_carrier( c.ops[ i + 1 ] ) ) ) )
                     burst.push_back( &c.ops[ ++i ] );
+                if ( avoid && instant_carrier( o ) && cen.connected() )
+                {
+                    noack_left = 0;
+                    for ( int k = 0; k != 16 && cen.connected() && total_events < max_events; ++k )
+                    {
+                        bool due = false;
+                        for ( auto& e : expect )
+                            due = due || !e.optional;
+                        if ( !due && k >= 2 )
+                            break;
+                        do_event( {}, i );
+                    }
+                }
                 if ( avoid && instant_pending )
                 {
                     // F-21c: nothing but empty PDUs until the instant is reached
@@ -1027,6 +1125,13 @@ namespace {
             case OP_APP: {
                 if ( !ensure_connected() || own.kind >= 0 )
                     break;
+                if ( no_foreign_answers && instant_pending && update_pending )
+                {
+                    // F-27c: the connection update that is pending (sent before this request) would stop the response timer of this procedure
+                    rep.excluded = true;
+                    labels.insert( "excluded:F-27c-answer-to-another-procedure" );
+                    break;
+                }
                 bool ok = false;
                 switch ( o.app )
                 {
@@ -1039,6 +1144,9 @@ namespace {
                 {
                     own      = Own();
                     own.kind = o.app == APP_ICPR ? APP_CPR : o.app;
+                    // the request can not be queued before the connection event that follows this call
+                    own.t_q         = cen.anchor_us;
+                    own.called_at   = total_events;
                     if ( own.kind == APP_VER )
                     {
                         ++app_ver_to_send;
@@ -1068,9 +1176,16 @@ namespace {
         if ( cen.connected() )
             for ( auto& e : expect )
                 if ( !e.optional )
-                    verif::fail( "control.response-missing", verif::cat( "the central sent opcode 0x", std::hex, e.req_opcode, std::dec, " and never got ", e.describe() ),
-                        verif::cat( "oracle=response-missing req=0x", std::hex, e.req_opcode ) );
+                    verif::fail( "control.response-missing",
+                        verif::cat( "the central sent opcode 0x", std::hex, e.req_opcode, std::dec, " and never got ", e.describe(),
+                            cen.rx_full_on_empty >= 3 ? " (receive and transmit ring are full: the acknowledgement of the central can not be received any more)" : "" ),
+                        verif::cat( "oracle=response-missing", cen.rx_full_on_empty >= 3 ? " deadlock=rx-full" : "" ) );
 
+        if ( cen.rx_full_rescued )
+        {
+            rep.excluded = true;
+            labels.insert( "excluded:F-27b-receive-ring-full" );
+        }
         rep.nontrivial = nt_wrong_len || nt_state;
         for ( auto& l : labels )
             rep.label( l );
